@@ -66,7 +66,7 @@ pub fn generate(tier: &str, seed: u64) -> Vec<Rec> {
     c08::gen_vec(&mut Rng::new(seed.wrapping_add(8)), tier, &mut base);
     base.extend(c09::generate(tier, seed.wrapping_add(9)));
     let mut out: Vec<Rec> = base.iter().filter_map(|r| pair(r, &mut rng)).collect();
-    out.extend(c07::generate(tier, seed.wrapping_add(7)).into_iter().filter(|r| r.code < 7100));
+    out.extend(c07::generate(tier, seed.wrapping_add(7)).into_iter().filter(|r| (7000..7100).contains(&r.code)));
     out.extend(c05::generate(tier, seed.wrapping_add(5)).into_iter().filter(|r| (5001..=5004).contains(&r.code)));
     out
 }
